@@ -323,6 +323,13 @@ def _ref_bomb(rng, base_index, shape, plain=False):
         n = rng.choice([3000, 9000])  # 7 bytes a level: the deepest chain that fits the 64 KiB input bound
         width = 1
     parts = []
+    extra_items = 0
+    if shape == "ref_dag" and rng.chance(1, 2):
+        # first a set of many EQUAL small tuples: all but one die at once, and their addresses are handed to the
+        # tuples created next - a size memo keyed on id() without keeping its objects alive inherits stale entries
+        dups = rng.choice([50, 300, 1000])
+        parts.append(b"<" + _i32(dups) + (b")" + bytes([width]) + b"N" * width) * dups)
+        extra_items = 1
     for k in range(n):
         parts.append(bytes([ord(")") | 0x80, width]))
         if k == 0:
@@ -341,7 +348,8 @@ def _ref_bomb(rng, base_index, shape, plain=False):
         tail = b"<" + _i32(2) + last + b"r" + _i32(base_index + max(0, n - 2))
     else:
         tail = last
-    return b"(" + _i32(n + 1) + b"".join(parts) + tail, {"levels": n, "trigger": trigger}
+    return b"(" + _i32(n + 1 + extra_items) + b"".join(parts) + tail, {"levels": n, "trigger": trigger,
+                                                                       "dups_first": bool(extra_items)}
 
 
 def f_nesting_bomb(rng, img, ctx):
